@@ -129,6 +129,11 @@ func genSession(g *genCtx) {
 			}
 			for _, fl := range fls {
 				emit(Case{"disp": "type", "type": tn, "flavour": fl})
+				// ... with a zero, an error and an all-ones status, as a full and as the shortest image of the type
+				for _, st := range []int{0, 1, 0x58, 0xff, 0x7fffffff} {
+					emit(Case{"disp": "type", "type": tn, "flavour": fl, "status": st})
+					emit(Case{"disp": "type", "type": tn, "flavour": fl, "status": st, "bare": true})
+				}
 			}
 		}
 		nr := 800
@@ -143,6 +148,13 @@ func genSession(g *genCtx) {
 			for i := 0; i < nr/5; i++ {
 				emit(Case{"disp": "id", "pkg": pkg, "cmd": be(uint64(r.Uint32()), 4)})
 			}
+			hl := map[string]int{"smpp34": 16, "cmpp20": 12, "cmpp30": 12, "smgp30": 12, "sgip12": 20}[pkg]
+			for c := 0; c < 48; c++ {
+				for _, top := range []uint32{0, 0x80000000} {
+					emit(Case{"disp": "id", "pkg": pkg, "cmd": be(uint64(top+uint32(c)), 4), "bare": hl, "status": []int{1, 0x58, 0xff}[c%3]})
+				}
+			}
+			emit(Case{"disp": "id", "pkg": pkg, "cmd": be(uint64(0xffffffff), 4), "bare": hl, "status": 0x58})
 		}
 	}
 }
@@ -353,12 +365,36 @@ func again(tr *Tracer, pkg string, req sms.PDU, tn string) {
 	tr.emit(Ev{"ev": "Again", "type": typeNameOf(req), "bytes": B(b), "getcmd": pduGetCmd(req), "dtype": dt, "site": tn + ".after_reply"})
 }
 
+func be8(v uint64, w int) []byte {
+	b := make([]byte, w)
+	for i := w - 1; i >= 0; i-- {
+		b[i] = byte(v)
+		v >>= 8
+	}
+	return b
+}
+
 func runDispatch(c Case, kind string, tr *Tracer) {
 	rr := rand.New(rand.NewSource(int64(caseInt(c, "t"))))
 	if kind == "type" {
 		tn := caseStr(c, "type")
 		pkg := tn[:6]
+		tr.emit(Ev{"ev": "Start", "pkg": pkg, "site": pkg}) // every case is a trace of its own
 		a := defaultAssign(rr, tn, true)
+		setCmd(tn, a)
+		fixCounts(tn, a)
+		if st := caseInt(c, "status"); st != 0 {
+			if _, ok := a["status"]; ok { // SMPP: command_status in the header
+				a["status"] = fval{b: be8(uint64(st), 4)}
+			}
+		}
+		if caseBool(c, "bare") {
+			a = defaultAssign(rr, tn, false) // every field empty / zero: the shortest image of the type
+			setCmd(tn, a)
+			if _, ok := a["status"]; ok {
+				a["status"] = fval{b: be8(uint64(caseInt(c, "status")), 4)}
+			}
+		}
 		if fl := caseInt(c, "flavour"); fl != 0 {
 			top := byte(0)
 			if strings.HasSuffix(tn, "Resp") {
@@ -376,8 +412,15 @@ func runDispatch(c Case, kind string, tr *Tracer) {
 	}
 	pkg := caseStr(c, "pkg")
 	cmd := caseBytes(c, "cmd")
+	tr.emit(Ev{"ev": "Start", "pkg": pkg, "site": pkg})
 	b := make([]byte, 400)
 	b[2], b[3] = 1, 0x90
+	if hl := caseInt(c, "bare"); hl > 0 {
+		// nothing but a header (hl octets), with a non-zero status word behind the command id
+		b = make([]byte, hl)
+		b[3] = byte(hl)
+		copy(b[8:12], be8(uint64(caseInt(c, "status")), 4))
+	}
 	copy(b[4:8], cmd)
 	dt, _ := dispatchName(pkg, b)
 	if dt == "err" {
